@@ -1,7 +1,11 @@
 """C08 -- no string payload can alter grid structure (escaping is injective and contained)."""
 from __future__ import annotations
 
+from ..lang import Unsupported
+from ..model import AnalysisError
+from . import _json as J
 from . import _zinc
+from . import c02, c06
 
 META = {
     'level': 'other',
@@ -31,3 +35,14 @@ def run(ctx):
     for version in ('3.0', '2.0'):
         t = _zinc.writer_templates(ctx, 'C08.D1', 'zincdumper', 'zinc', version)
         _zinc.raw_positions(ctx, 'C08.D1', t, version)
+    # JSON (D2)
+    try:
+        fn, p, entries = J.extract_cascade(ctx.model)
+    except (Unsupported, AnalysisError) as e:
+        ctx.error('C08.D2', 'decode cascade: %s' % e)
+        return
+    for version in ('3.0', '2.0'):
+        for kind in ('str', 'Uri', 'Ref+dis', 'Ref', 'XStr', 'Bin'):
+            if kind in _zinc.kinds_for(version):
+                c02._kind(ctx, entries, kind, version, rule='C08.D2', rule3='C08.D2', rule5='C08.D2')
+    c06._shape(ctx)
